@@ -154,7 +154,6 @@ class TDS(BaseRoutine):
         self._switch_idx = 0          # index into `System.switch_times`
         self._last_switch_t = -999    # the last critical time
         self.custom_event = False
-        self._t_prev = None
         self.mis = [1, 1]
         self.pbar = None
         self.callpert = None
@@ -1088,6 +1087,7 @@ class TDS(BaseRoutine):
         self._switch_idx = 0        # index into `System.switch_times`
         self._last_switch_t = -999  # the last event time
         self.custom_event = False
+        self._t_prev = None
         self.mis = [1, 1]
         self.system.dae.t = np.array(0.0)
         self.pbar = None
